@@ -41,10 +41,20 @@ def base(seed, index, ex="asyncio"):
                 op["body"] = {"len": nb, "chunks": gen.gen_chunks(r, nb), "oneshot": False}
             ops.append(op)
         callers.append({"start": r.choice([0.0, 0.0, 0.001, 0.01]), "ops": ops})
+    eps = {f"a.test:{port}": ep}
+    rp = gen.mk_rng(seed, "c14proxy")
+    pk = rp.choice(["none", "none", "none", "http", "socks"])
+    if pk == "http":
+        # tunnel for https origins, forwarding for http ones
+        eps["px.test:8080"] = {"kind": "http_proxy"}
+        pool["proxy"] = {"url": "http://px.test:8080"}
+    elif pk == "socks":
+        eps["sk.test:1080"] = {"kind": "socks", "auth": None}
+        pool["proxy"] = {"url": "socks5://sk.test:1080"}
     return {"seed": seed, "exec": ex, "sched": "fifo", "pool": pool,
             "net": {"latency": r.choice(["zero", "fixed", "small"]),
                     "seg": r.choice(["whole", "random"]),
-                    "endpoints": {f"a.test:{port}": ep}},
+                    "endpoints": eps},
             "callers": callers, "epilogue": ["close_pool"], "c14": {"h2": h2}}
 
 
@@ -56,7 +66,10 @@ def once_oracle(res, scn):
     if not h2:
         for e in led.of("c2s"):
             tok = e[6]
-            if tok is not None and tok in w.calls:
+            # the request itself (its line names the token), not a CONNECT or a SOCKS
+            # negotiation made on its behalf
+            if tok is not None and tok in w.calls and (b"/t/" + tok) in bytes(e[7]) \
+                    and not bytes(e[7]).startswith(b"CONNECT "):
                 wires_of.setdefault(tok, {}).setdefault(e[3], e[0])
     stream_of = {}    # (wire, token) -> sid
     for e in led.of("h2_req"):
